@@ -40,8 +40,6 @@ def DriverState.init : DriverState := {}
 
 def PErr.toText : PErr → String
   | .msg m => "msg:" ++ m
-  | .panic s => "panic:" ++ s
-  | .hang s => "hang:" ++ s
   | .unsupported w => "unsupported:" ++ w
 
 def handleLine (st : DriverState) (line : String) : DriverState × String :=
